@@ -115,8 +115,8 @@ impl<'a> FmtVisitor<'a> {
 
     fn push_vertical_spaces(&mut self, mut newline_count: usize) {
         let offset = self.buffer.chars().rev().take_while(|c| *c == '\n').count();
-        let newline_upper_bound = self.config.blank_lines_upper_bound() + 1;
-        let newline_lower_bound = self.config.blank_lines_lower_bound() + 1;
+        let newline_upper_bound = self.config.blank_lines_upper_bound().saturating_add(1);
+        let newline_lower_bound = self.config.blank_lines_lower_bound().saturating_add(1);
 
         if newline_count + offset > newline_upper_bound {
             if offset >= newline_upper_bound {
